@@ -45,6 +45,8 @@ class Contract:
     attrs: List[str] = field(default_factory=list)      # verifier attributes, e.g. rlimit
     nloops: Optional[int] = None
     common_inv: str = ''   # clauses added to every loop invariant of the fn
+    ghostparams: List[str] = field(default_factory=list)            # R9: extra ghost parameters
+    ghostargs: List[Tuple[str, str]] = field(default_factory=list)  # R9: (callee regex, extra ghost argument)
     closures: Dict[str, Dict[str, str]] = field(default_factory=dict)  # let-bound closure name -> {ret, requires, ensures}
     src: str = ''       # vspec file
     line: int = 0
@@ -128,6 +130,11 @@ def load_contracts(cdir=None) -> Dict[Tuple[str, str], Contract]:
                     cur.rewrites.extend(arg.split())
                 elif d == '@attr':
                     cur.attrs.append(arg)
+                elif d == '@ghostparam':
+                    cur.ghostparams.append(arg.strip())
+                elif d == '@ghostarg':
+                    rx, a2 = arg.split(None, 1)
+                    cur.ghostargs.append((rx, a2.strip()))
                 elif d == '@closure':
                     sect = 'closure'
                     sect_arg = arg.strip()
@@ -422,6 +429,53 @@ def receiver_start(toks, i):
             continue
         break
     return j + 1
+
+
+def rw_R9(text, c, site, log, header_only=False):
+    """R9: thread the ghost world: extra `Tracked(..)` parameters on the fn, extra ghost arguments at listed calls."""
+    if c is None or (not c.ghostparams and not c.ghostargs):
+        return text
+    # parameters: insert before the closing paren of the fn's parameter list
+    if c.ghostparams:
+        toks = tokenize(text)
+        i = 0
+        while not (toks[i].kind == 'ident' and toks[i].text == 'fn'):
+            i += 1
+        j = i + 2
+        if toks[j].text == '<':
+            depth = 0
+            while True:
+                if toks[j].text == '<':
+                    depth += 1
+                elif toks[j].text == '>' and toks[j - 1].text != '-':
+                    depth -= 1
+                    if depth == 0:
+                        j += 1
+                        break
+                j += 1
+        cl = match_close(toks, j)
+        inner = text[toks[j].end:toks[cl].start].strip()
+        sep = '' if inner == '' or inner.endswith(',') else ', '
+        text = text[:toks[cl].start] + sep + ', '.join(c.ghostparams) + text[toks[cl].start:]
+        log.add('R9(ghost parameter)', site, len(c.ghostparams))
+    if header_only:
+        return text
+    for rx, arg in c.ghostargs:
+        cnt = 0
+        pos = 0
+        while True:
+            m = re.compile(r'(?:%s)\s*\(' % rx).search(text, pos)
+            if not m:
+                break
+            op = m.end() - 1
+            cl = balanced_end(text, op)
+            inner = text[op + 1:cl].strip()
+            sep = '' if inner == '' else (' ' if inner.endswith(',') else ', ')
+            text = text[:cl] + sep + arg + text[cl:]
+            pos = cl + len(sep) + len(arg) + 1
+            cnt += 1
+        log.add('R9(ghost argument %s at calls of /%s/)' % (arg, rx), site, cnt)
+    return text
 
 
 def rw_R5_any(text, site, log):
@@ -959,6 +1013,7 @@ class Unit:
             text = expand_macro_calls(text, self.expand_macros, site, self.log)
         for rw in GLOBAL_REWRITES:
             text = rw(text, site, self.log)
+        text = rw_R9(text, c, site, self.log)
         if c:
             for r in c.rewrites:
                 if r == 'R5':
@@ -988,9 +1043,7 @@ class Unit:
         raw = src[it.start:it.end]
         line0 = rustlex.line_of(src, it.start)
         if mode == 'standin':
-            header, _ = split_fn(strip_attrs_and_docs(vis_rewrite(raw)))
-            for rw in (rw_R2,):
-                pass
+            header, _ = split_fn(rw_R9(strip_attrs_and_docs(vis_rewrite(raw)), c, site, RewriteLog(), header_only=True))
             if c is None:
                 raise WeaveError('standin without contract: ' + site)
             sc = Contract(c.file, c.path, ret=c.ret, requires=c.requires, ensures=c.ensures)
